@@ -306,5 +306,17 @@ func allProps() []*propInfo {
 				{ID: "C07.1", Doc: "[dom] (shared, C08.5) unparsable stored filter skips", Run: ruleC07_1},
 			},
 		},
+		{
+			ID: "C17",
+			Explanation: "Static necessary conditions of 'configuration round-trips': " +
+				"C17.1 (K9 data dependence) every configuration field CreateSubscription accepts flows request → action parameter → its column, and every such column is read back by entSubscriptionToGrpc into the corresponding response field (labels, retention, expiration TTL, ordering flag, filter, retry policy, dead-letter policy, push endpoint; topics: labels); " +
+				"C17.2 update-mask locality: in UpdateSubscription / UpdateTopic the set of columns mutated under each mask path equals the frozen table, no column is mutated outside a mask path, unknown paths are rejected, and the no-op shortcut that skips the save checks every kind of mutation (set / cleared / added) the handler can apply. " +
+				"NOT decided: the interval codec (all durations / all PostgreSQL interval strings — numeric), defaults' values, sequences of updates.",
+			Assumptions: []string{k1Assumption, "protobuf/ent field names correspond one-to-one as in the generated code"},
+			Rules: []ruleFn{
+				{ID: "C17.1", Doc: "[dep] create mapping is complete", Run: ruleC17_1},
+				{ID: "C17.2", Doc: "[atoms] update-mask locality", Run: ruleC17_2},
+			},
+		},
 	}
 }
